@@ -476,6 +476,8 @@ func runC10(p *an.Prog, r *an.Run, tier string) {
 	r.Floor("bigint-mutations", nMut, 10)
 	r.Check(len(bad) == 0, "no-shared-bigint", "repo", token.NoPos, "no in-place big.Int mutation of shallow copies of shared balances", "%s", strings.Join(bad, "; "))
 
+	checkAliasEscapesLock(p, r, "alias-escapes-lock", func(fn *ssa.Function) bool { return true })
+
 	// ---- rmw-atomic: a ledger write computed from a ledger read of the same function must share a lock region with that read
 	bad = nil
 	nRMW := 0
@@ -919,4 +921,70 @@ func onlyCalledFromReadMessage(p *an.Prog, fn *ssa.Function) bool {
 		}
 	}
 	return true
+}
+
+// checkAliasEscapesLock: bytes.Buffer.Bytes() returns a slice that aliases the buffer. When the buffer is a field
+// filled under a mutex and the slice is still used after that mutex is released, a second holder of the lock rewrites
+// bytes the first user is still reading (two writers: one message lost, the other sent twice).
+func checkAliasEscapesLock(p *an.Prog, r *an.Run, rule string, want func(*ssa.Function) bool) {
+	var bad []string
+	n := 0
+	for _, fn := range p.Repo {
+		if p.IsTestFunc(fn) || isTestDoublePkg(fn) || !want(fn) {
+			continue
+		}
+		var li *an.LockInfo
+		for _, c := range an.Calls(fn, false) {
+			f := an.CallObj(c)
+			if !an.IsMethod(f, "bytes", "Buffer", "Bytes") || len(c.Common().Args) == 0 {
+				continue
+			}
+			root, path := an.RootPath(c.Common().Args[0])
+			if _, isPrm := root.(*ssa.Parameter); !isPrm || path == "" {
+				continue // a local buffer
+			}
+			n++
+			if li == nil {
+				li = an.Locksets(fn, nil)
+			}
+			held := li.Before[c.(ssa.Instruction)]
+			if len(held) == 0 {
+				continue // not lock-protected at all: unsynchronised-write / single-writer rules decide
+			}
+			seen := map[ssa.Value]bool{}
+			var walk func(v ssa.Value)
+			walk = func(v ssa.Value) {
+				if seen[v] || v.Referrers() == nil {
+					return
+				}
+				seen[v] = true
+				for _, ref := range *v.Referrers() {
+					switch x := ref.(type) {
+					case *ssa.Slice:
+						walk(x)
+						continue
+					case *ssa.Phi:
+						walk(x)
+						continue
+					case *ssa.ChangeType:
+						walk(x)
+						continue
+					case *ssa.DebugRef:
+						continue
+					}
+					h2 := li.Before[ref]
+					for k := range held {
+						if _, still := h2[k]; !still {
+							bad = append(bad, an.FuncName(fn)+" uses the bytes of a buffer it shares under "+string(k)+" after releasing that lock ("+p.Pos(ref.Pos())+"): another holder of the lock overwrites them meanwhile")
+						}
+					}
+				}
+			}
+			if v := c.Value(); v != nil {
+				walk(v)
+			}
+		}
+	}
+	r.Note("buffer-alias sites examined: %d", n)
+	r.Check(len(bad) == 0, rule, "repo", token.NoPos, "no alias of a lock-protected buffer outlives the lock", "%s", strings.Join(dedup(bad), "; "))
 }
